@@ -11,7 +11,11 @@ def main(mods, only=None):
         importlib.import_module(m)
     tot = 0
     from pyvc.verify import lemma_obligations
+    import os
+    lf = os.environ.get("LEMMAS")
     for sp in REGISTRY.lemmas:
+        if lf is not None and not (sp.name in lf.split(",") or (lf.endswith("*") and sp.fn.__module__.endswith(lf[:-1]))):
+            continue
         obs = lemma_obligations(sp)
         discharge(obs)
         for o in obs:
